@@ -302,7 +302,7 @@ Proof.
     rewrite (path_eqb_single t lex n Hn) in B.
     cbv beta iota zeta delta [bind x_kind x_classes x_syms x_eqs x_menv Pos.eqb kBuiltin Nat.ltb Nat.leb andb
                               od_update fold_left od_set entries_of map app add_value_mods s_name s_type
-                              s_prefixes s_dims s_mods iValueSym poison negb forallb mem_id head_id existsb
+                              s_prefixes s_dims s_mods iValueSym negb forallb mem_id head_id existsb
                               m_target orb] in B.
     cbn [build_syms s_name s_type head_id] in B. rewrite Ht in B.
     cbn [filter flat_map app s_mods s_prefixes s_dims rev bind fst snd] in B.
@@ -310,48 +310,6 @@ Proof.
 Qed.
 
 (* ------------------------------------------------------------------ the symbol loop of build *)
-Inductive built (root : list cdef) (f : nat) (me : scope) : sym -> isym -> Prop :=
-| BElem s :
-    mem_id (head_id (s_type s)) BUILTIN = true ->
-    built root f me s (ISym (s_name s) (s_prefixes s) (s_dims s) (TyElem (s_type s)) [])
-| BInst s tc tlex tparent b i :
-    mem_id (head_id (s_type s)) BUILTIN = false ->
-    lookup me (s_type s) = Some (tc, tlex, tparent, b) ->
-    pclass tc -> Forall fplain tparent ->
-    build root false f tc tlex tparent [] [] = Ok i ->
-    built root f me s (ISym (s_name s) (s_prefixes s) (s_dims s) (TyInst i) []).
-
-Lemma build_syms_plain root f me myref : Forall fplain me -> forall ss acc l rest,
-  Forall plain_sym ss ->
-  build_syms root false (build root false f) (extends_builtin root f) me myref ss [] [] acc = Ok (l, rest) ->
-  exists l', l = rev acc ++ l' /\ Forall2 (built root f me) ss l'.
-Proof.
-  intros Hme. induction ss as [|s ss IH]; intros acc l rest Hp H; cbn [build_syms mlookup] in H.
-  - inversion H; subst. exists []. rewrite app_nil_r. split; [reflexivity | constructor].
-  - inversion Hp as [|? ? [Hm Hnd] Hp']; subst.
-    destruct (mem_id (head_id (s_type s)) BUILTIN) eqn:E.
-    + rewrite Hm in H. cbn [filter flat_map app] in H.
-      apply IH in H; [|assumption]. destruct H as [l' [-> F]].
-      eexists (_ :: l'). split; [cbn [rev]; rewrite <- app_assoc; reflexivity|].
-      constructor; [apply BElem; assumption | assumption].
-    + destruct (lookup me (s_type s)) as [[[[tc tlex] tparent] b]|] eqn:L; [|discriminate H].
-      cbn [filter] in H.
-      destruct (if b then Ok false else extends_builtin root f tc tlex) as [ib|err] eqn:Eib;
-        cbn [bind] in H; [|discriminate H].
-      rewrite Hm in H.
-      assert (build root false f tc tlex tparent [] [] = Ok (match build root false f tc tlex tparent [] [] with Ok i => i | Err _ => Inst [] xH [] [] [] end)
-              /\ build_syms root false (build root false f) (extends_builtin root f) me myref ss [] []
-                   (ISym (s_name s) (s_prefixes s) (s_dims s)
-                      (TyInst (match build root false f tc tlex tparent [] [] with Ok i => i | Err _ => Inst [] xH [] [] [] end)) [] :: acc) = Ok (l, rest)) as [B H'].
-      { destruct ib; cbn [flat_map shift_args bind app map] in H; destruct b; cbn [app map] in H;
-          destruct (build root false f tc tlex tparent [] []) as [i|err]; cbn [bind] in H;
-          try discriminate H; split; (reflexivity || exact H). }
-      apply IH in H'; [|assumption]. destruct H' as [l' [-> F]].
-      eexists (_ :: l'). split; [cbn [rev]; rewrite <- app_assoc; reflexivity|].
-      destruct (lookup_plain _ _ _ _ _ _ Hme L) as [Htc Htp].
-      constructor; [eapply BInst; eassumption | assumption].
-Qed.
-
 (* ------------------------------------------------------------------ spec side: types *)
 Lemma elem_type_builtin f S tref :
   mem_id (head_id tref) BUILTIN = true -> elem_type f S tref = Some (Some (tref, [])).
@@ -368,94 +326,195 @@ Qed.
 Lemma plain_kind c : plain c -> c_kind c <> kBuiltin /\ c_kind c <> kType.
 Proof. inversion 1; simpl; auto. Qed.
 
-(* ------------------------------------------------------------------ the fused symbol loop *)
-Definition IHyp (root : list cdef) (f : nat) : Prop :=
-  forall c lex parent Sp prefix i r,
-    plain c -> Forall fplain parent -> sim parent Sp ->
-    build root false f c lex parent [] [] = Ok i ->
-    flatten_symbols i prefix = Ok r ->
-    inst_go f true c lex Sp prefix [] = Some (map var_of (fst r), snd r, []) /\ Forall clean (fst r).
+(* ------------------------------------------------------------------ the symbol loop of build, and the
+   fused loop build_syms + fs_go against the specification's inst_elems; generic in what is known about
+   the classes (Q: a class found by lookup; CP: a class that is instantiated) *)
+Section Loop.
+  Variable root : list cdef.
+  Variable Q : cdef -> path -> scope -> Prop.
+  Variable CP : cdef -> path -> scope -> Prop.
+  Variable REL : scope -> scope -> Prop.      (* parent chain of the model vs scope of the specification *)
 
-Lemma fs_inst root f me sc prefix :
-  IHyp root f -> Forall fplain me -> sim me sc ->
-  forall ss l', Forall2 (built root f me) ss l' -> Forall plain_sym ss ->
-  forall flat feqs r, Forall clean flat ->
-    fs_go flatten_symbols prefix l' flat feqs = Ok r ->
-    inst_syms (inst_go f true) (elem_type f) sc prefix [] ss (map var_of flat) feqs
-      = Some (map var_of (fst r), snd r) /\ Forall clean (fst r).
-Proof.
-  intros IHf Hme Hsim ss l' F. induction F as [|s y ss l' Hb F IH]; intros Hp flat feqs r Hc H.
-  - cbn [fs_go] in H. inversion H; subst. cbn [inst_syms fst snd]. split; [reflexivity | assumption].
-  - inversion Hp as [|? ? [Hm Hnd] Hp']; subst.
-    destruct Hb as [s E | s tc tlex tparent b i E L Htc Htp B].
-    + cbn [fs_go] in H. cbn [inst_syms].
-      rewrite (elem_type_builtin f sc (s_type s) E). rewrite Hm.
-      change (sub_mods (s_name s) [] ++ flat_args (Some prefix) []) with (@nil mentry).
-      change (leaf_attrs ([] ++ [])) with (@nil (ident * expr * option path)).
-      rewrite <- (strip_drop prefix (s_prefixes s) Hnd).
-      specialize (IH Hp' (f_update flat [mkF (prefix ++ [s_name s]) (s_type s) (strip_io prefix (s_prefixes s)) (s_dims s) [] []]) feqs r).
-      rewrite var_of_update in IH. apply IH; [|exact H].
-      apply clean_update; [assumption | constructor; [split; reflexivity | constructor]].
-    + pose proof (lookup_sim me sc (s_type s) Hsim) as LS. rewrite L in LS.
-      destruct LS as [tS [b2 [L2 Hs2]]].
-      destruct Htc as [Htc|Hal].
-      2:{ (* the type is an alias of a built-in: the component is a leaf *)
-        destruct (build_alias root f tc tlex tparent i Hal B) as [ra [rm [t [-> [Etc [Ht Hf]]]]]].
-        cbn [fs_go] in H.
-        change (collapses (Inst ra kBuiltin [ISym iValueSym [] [] (TyElem [t]) []] [] rm))
-          with (Some (ISym iValueSym [] [] (TyElem [t]) [])) in H.
-        cbn [app] in H.
-        destruct f as [|f']; [congruence|].
-        cbn [inst_syms]. cbn [elem_type]. rewrite E, L2, Etc. cbn [c_kind c_exts].
-        change (Pos.eqb kType kType) with true. cbv iota.
-        rewrite (elem_type_builtin f' _ [t] Ht). rewrite Hm.
+  (* two scopes agree on a type name: same class, same lexical path, related parent chains *)
+  Definition agree (me sc : scope) (t : path) : Prop :=
+    match lookup me t with
+    | Some (c, lex, S1, _) => exists S2 b2, lookup sc t = Some (c, lex, S2, b2) /\ REL S1 S2
+    | None => lookup sc t = None
+    end.
+
+  Hypothesis HQ : forall tc tlex tparent, Q tc tlex tparent -> alias tc \/ CP tc tlex tparent.
+  Hypothesis HK : forall c lex parent n i,
+      CP c lex parent -> build root false n c lex parent [] [] = Ok i ->
+      exists a b d e, i = Inst a (c_kind c) b d e /\ c_kind c <> kBuiltin /\ c_kind c <> kType.
+
+  Inductive built (f : nat) (me : scope) : sym -> isym -> Prop :=
+  | BElem s :
+      mem_id (head_id (s_type s)) BUILTIN = true ->
+      built f me s (ISym (s_name s) (s_prefixes s) (s_dims s) (TyElem (s_type s)) [])
+  | BInst s tc tlex tparent b i :
+      mem_id (head_id (s_type s)) BUILTIN = false ->
+      lookup me (s_type s) = Some (tc, tlex, tparent, b) ->
+      Q tc tlex tparent ->
+      build root false f tc tlex tparent [] [] = Ok i ->
+      built f me s (ISym (s_name s) (s_prefixes s) (s_dims s) (TyInst i) []).
+
+  Lemma build_syms_plain f me myref :
+    (forall t tc tlex tparent b, lookup me t = Some (tc, tlex, tparent, b) -> Q tc tlex tparent) ->
+    forall ss acc l rest,
+    Forall plain_sym ss ->
+    build_syms root false (build root false f) (extends_builtin root f) me myref ss [] [] acc = Ok (l, rest) ->
+    exists l', l = rev acc ++ l' /\ Forall2 (built f me) ss l'.
+  Proof.
+    intros Hme. induction ss as [|s ss IH]; intros acc l rest Hp H; cbn [build_syms mlookup] in H.
+    - inversion H; subst. exists []. rewrite app_nil_r. split; [reflexivity | constructor].
+    - inversion Hp as [|? ? [Hm Hnd] Hp']; subst.
+      destruct (mem_id (head_id (s_type s)) BUILTIN) eqn:E.
+      + rewrite Hm in H. cbn [filter flat_map app] in H.
+        apply IH in H; [|assumption]. destruct H as [l' [-> F]].
+        eexists (_ :: l'). split; [cbn [rev]; rewrite <- app_assoc; reflexivity|].
+        constructor; [apply BElem; assumption | assumption].
+      + destruct (lookup me (s_type s)) as [[[[tc tlex] tparent] b]|] eqn:L; [|discriminate H].
+        cbn [filter] in H.
+        destruct (if b then Ok false else extends_builtin root f tc tlex) as [ib|err] eqn:Eib;
+          cbn [bind] in H; [|discriminate H].
+        rewrite Hm in H.
+        assert (build root false f tc tlex tparent [] [] = Ok (match build root false f tc tlex tparent [] [] with Ok i => i | Err _ => Inst [] xH [] [] [] end)
+                /\ build_syms root false (build root false f) (extends_builtin root f) me myref ss [] []
+                     (ISym (s_name s) (s_prefixes s) (s_dims s)
+                        (TyInst (match build root false f tc tlex tparent [] [] with Ok i => i | Err _ => Inst [] xH [] [] [] end)) [] :: acc) = Ok (l, rest)) as [B H'].
+        { destruct ib; cbn [flat_map shift_args bind app map] in H; destruct b; cbn [app map] in H;
+            destruct (build root false f tc tlex tparent [] []) as [i|err]; cbn [bind] in H;
+            try discriminate H; split; (reflexivity || exact H). }
+        apply IH in H'; [|assumption]. destruct H' as [l' [-> F]].
+        eexists (_ :: l'). split; [cbn [rev]; rewrite <- app_assoc; reflexivity|].
+        pose proof (Hme _ _ _ _ _ L) as Hq.
+        constructor; [eapply BInst; eassumption | assumption].
+  Qed.
+
+  Definition IHyp (f : nat) : Prop :=
+    forall c lex parent Sp prefix i r,
+      CP c lex parent -> REL parent Sp ->
+      build root false f c lex parent [] [] = Ok i ->
+      flatten_symbols i prefix = Ok r ->
+      inst_go f c lex Sp prefix [] = Some (map var_of (fst r), snd r) /\ Forall clean (fst r).
+
+  Definition el_ok (f : nat) (me : scope) (el : elem) (y : isym) : Prop :=
+    built f me (el_sym el) y /\ agree me (el_scope el) (s_type (el_sym el)) /\ el_mods el = [].
+
+  Lemma fs_inst f me prefix :
+    IHyp f ->
+    forall els l', Forall2 (el_ok f me) els l' -> Forall plain_sym (map el_sym els) ->
+    forall flat feqs r, Forall clean flat ->
+      fs_go flatten_symbols prefix l' flat feqs = Ok r ->
+      inst_elems (inst_go f) (elem_type f) prefix els (map var_of flat) feqs
+        = Some (map var_of (fst r), snd r) /\ Forall clean (fst r).
+  Proof.
+    intros IHf els l' F. induction F as [|el y els l' [Hb [Hag Hmods]] F IH]; intros Hp flat feqs r Hc H.
+    - cbn [fs_go] in H. inversion H; subst. cbn [inst_elems fst snd]. split; [reflexivity | assumption].
+    - destruct el as [[s sc] mods]. cbn [el_sym el_scope el_mods fst snd map] in *. subst mods.
+      inversion Hp as [|? ? [Hm Hnd] Hp']; subst.
+      destruct Hb as [s E | s tc tlex tparent b i E L Hq B].
+      + cbn [fs_go] in H. cbn [inst_elems].
+        rewrite (elem_type_builtin f sc (s_type s) E). rewrite Hm.
         change (sub_mods (s_name s) [] ++ flat_args (Some prefix) []) with (@nil mentry).
-        change (leaf_attrs ([] ++ (flat_args None [] ++ []))) with (@nil (ident * expr * option path)).
+        change (leaf_attrs ([] ++ [])) with (@nil (ident * expr * option path)).
         rewrite <- (strip_drop prefix (s_prefixes s) Hnd).
-        specialize (IH Hp' (f_update flat [mkF (prefix ++ [s_name s]) [t] (strip_io prefix (s_prefixes s)) (s_dims s) [] []]) feqs r).
+        specialize (IH Hp' (f_update flat [mkF (prefix ++ [s_name s]) (s_type s) (strip_io prefix (s_prefixes s)) (s_dims s) [] []]) feqs r).
         rewrite var_of_update in IH. apply IH; [|exact H].
-        apply clean_update; [assumption | constructor; [split; reflexivity | constructor]]. }
-      destruct (build_kind root f tc tlex tparent i Htc B) as [ra [rb [rd [re ->]]]].
-      destruct (plain_kind tc Htc) as [K1 K2].
-      cbn [fs_go] in H. rewrite (collapses_plain ra (c_kind tc) rb rd re K1 K2) in H.
-      destruct (flatten_symbols (Inst ra (c_kind tc) rb rd re) (prefix ++ [s_name s])) as [r0|err] eqn:Fs;
-        cbn [bind] in H; [|discriminate H].
-      destruct (IHf tc tlex tparent tS (prefix ++ [s_name s]) _ r0 Htc Htp Hs2 B Fs) as [I0 C0].
-      destruct f as [|f']; [simpl in B; discriminate B|].
-      cbn [inst_syms].
-      rewrite (elem_type_struct f' sc (s_type s) tc tlex tS b2 E L2 K2). rewrite L2, Hm.
-      change (sub_mods (s_name s) [] ++ flat_args (Some (prefix)) []) with (@nil mentry).
-      rewrite I0.
-      specialize (IH Hp' (f_update flat (map (fun s0 => mkF (f_name s0) (f_type s0) (f_prefixes s0) (s_dims s ++ f_dims s0) (f_attrs s0) (f_cmods s0)) (fst r0))) (feqs ++ snd r0) r).
-      rewrite var_of_update in IH. rewrite !map_map in IH. rewrite map_map.
-      apply IH; [|exact H].
-      apply clean_update; [assumption|].
-      apply Forall_map. eapply Forall_impl; [|exact C0]. intros s0 [A1 A2]. split; assumption.
+        apply clean_update; [assumption | constructor; [split; reflexivity | constructor]].
+      + unfold agree in Hag. rewrite L in Hag. destruct Hag as [tS [b2 [L2 Hs2]]].
+        destruct (HQ _ _ _ Hq) as [Hal|Htc].
+        { (* the type is an alias of a built-in: the component is a leaf *)
+          destruct (build_alias root f tc tlex tparent i Hal B) as [ra [rm [t [-> [Etc [Ht Hf]]]]]].
+          cbn [fs_go] in H.
+          change (collapses (Inst ra kBuiltin [ISym iValueSym [] [] (TyElem [t]) []] [] rm))
+            with (Some (ISym iValueSym [] [] (TyElem [t]) [])) in H.
+          cbn [app] in H.
+          destruct f as [|f']; [congruence|].
+          cbn [inst_elems]. cbn [elem_type]. rewrite E, L2, Etc. cbn [c_kind c_exts].
+          change (Pos.eqb kType kType) with true. cbv iota.
+          rewrite (elem_type_builtin f' _ [t] Ht). rewrite Hm.
+          change (sub_mods (s_name s) [] ++ flat_args (Some prefix) []) with (@nil mentry).
+          change (leaf_attrs ([] ++ (flat_args None [] ++ []))) with (@nil (ident * expr * option path)).
+          rewrite <- (strip_drop prefix (s_prefixes s) Hnd).
+          specialize (IH Hp' (f_update flat [mkF (prefix ++ [s_name s]) [t] (strip_io prefix (s_prefixes s)) (s_dims s) [] []]) feqs r).
+          rewrite var_of_update in IH. apply IH; [|exact H].
+          apply clean_update; [assumption | constructor; [split; reflexivity | constructor]]. }
+        destruct (HK _ _ _ _ _ Htc B) as [ra [rb [rd [re [-> [K1 K2]]]]]].
+        cbn [fs_go] in H. rewrite (collapses_plain ra (c_kind tc) rb rd re K1 K2) in H.
+        destruct (flatten_symbols (Inst ra (c_kind tc) rb rd re) (prefix ++ [s_name s])) as [r0|err] eqn:Fs;
+          cbn [bind] in H; [|discriminate H].
+        destruct (IHf tc tlex tparent tS (prefix ++ [s_name s]) _ r0 Htc Hs2 B Fs) as [I0 C0].
+        destruct f as [|f']; [simpl in B; discriminate B|].
+        cbn [inst_elems].
+        rewrite (elem_type_struct f' sc (s_type s) tc tlex tS b2 E L2 K2). rewrite L2, Hm.
+        change (sub_mods (s_name s) [] ++ flat_args (Some (prefix)) []) with (@nil mentry).
+        rewrite I0.
+        specialize (IH Hp' (f_update flat (map (fun s0 => mkF (f_name s0) (f_type s0) (f_prefixes s0) (s_dims s ++ f_dims s0) (f_attrs s0) (f_cmods s0)) (fst r0))) (feqs ++ snd r0) r).
+        rewrite var_of_update in IH. rewrite !map_map in IH. rewrite map_map.
+        apply IH; [|exact H].
+        apply clean_update; [assumption|].
+        apply Forall_map. eapply Forall_impl; [|exact C0]. intros s0 [A1 A2]. split; assumption.
+  Qed.
+End Loop.
+
+(* ================================================================== stage 1: plain libraries *)
+Definition Q1 (tc : cdef) (tlex : path) (tparent : scope) : Prop := pclass tc /\ Forall fplain tparent.
+Definition CP1 (c : cdef) (lex : path) (parent : scope) : Prop := plain c /\ Forall fplain parent.
+
+Lemma HQ1 tc tlex tparent : Q1 tc tlex tparent -> alias tc \/ CP1 tc tlex tparent.
+Proof. intros [[H|H] F]; [right; split; assumption | left; assumption]. Qed.
+
+Lemma HK1 root c lex parent n i :
+  CP1 c lex parent -> build root false n c lex parent [] [] = Ok i ->
+  exists a b d e, i = Inst a (c_kind c) b d e /\ c_kind c <> kBuiltin /\ c_kind c <> kType.
+Proof.
+  intros [Hc _] B. destruct (build_kind root n c lex parent i Hc B) as [a [b [d [e ->]]]].
+  destruct (plain_kind c Hc). eexists _, _, _, _. split; [reflexivity | split; assumption].
 Qed.
 
-(* ------------------------------------------------------------------ a whole instance *)
 Lemma all_classes_plain f c lex S :
   c_exts c = [] ->
   all_classes f c lex S = od_update e_key Pos.eqb [] (entries_of (lex ++ [c_name c]) (c_classes c)).
 Proof. intros E. destruct f; cbn [all_classes]; [reflexivity|]. rewrite E. reflexivity. Qed.
 
-Lemma resolve_var_plain leaves prefix s : resolve_var leaves prefix (var_of s) = var_of s.
+Lemma elems_plain f c lex Sp prefix mods :
+  c_exts c = [] -> NoDup (map s_name (c_syms c)) ->
+  elems (S f) c lex Sp prefix mods =
+  Some (map (fun s => (s, class_scope f c lex Sp, mods)) (c_syms c), c_eqs c).
+Proof.
+  intros E N. cbn [elems]. rewrite E. cbn [fold_left app]. unfold e_update.
+  rewrite (od_update_fresh el_name Pos.eqb pos_eqb_spec' _ []); [reflexivity|].
+  cbn [map app]. rewrite map_map. exact N.
+Qed.
+
+Lemma inst_go_unfold f c lex S prefix mods :
+  inst_go (Datatypes.S f) c lex S prefix mods =
+  match elems f c lex S prefix mods with
+  | None => None
+  | Some (els, raw) =>
+      match inst_elems (inst_go f) (elem_type f) prefix els [] [] with
+      | None => None
+      | Some (vs, es) =>
+          Some (map (resolve_var (map v_name vs) prefix) vs, es ++ map (resolve_eqn (map v_name vs) prefix) raw)
+      end
+  end.
 Proof. reflexivity. Qed.
 
-Lemma inst_go_plain f c lex Sp prefix mods :
-  c_exts c = [] ->
-  inst_go (S f) true c lex Sp prefix mods =
-  match inst_syms (inst_go f true) (elem_type f) (class_scope f c lex Sp) prefix mods (c_syms c) [] [] with
-  | None => None
-  | Some (vs, es) =>
-      Some (map (resolve_var (map v_name vs) prefix) vs,
-            es ++ map (resolve_eqn (map v_name vs) prefix) (c_eqs c), [])
-  end.
-Proof. intros E. cbn [inst_go]. rewrite E. reflexivity. Qed.
-
-Lemma instance_refines root : forall n, IHyp root n.
+Lemma map_el_ok root Q REL f me sc ss l' :
+  Forall2 (built root Q f me) ss l' -> (forall t, agree REL me sc t) ->
+  Forall2 (el_ok root Q REL f me) (map (fun s => (s, sc, @nil mentry)) ss) l'.
 Proof.
-  induction n as [|n IHn]; intros c lex parent Sp prefix i r Hc Hpar Hsim B Fs.
+  intros F Hs. induction F as [|s0 y0 ss0 l0 Hb F IH]; [constructor|]. cbn [map]. constructor; [|exact IH].
+  split; [exact Hb|]. split; [apply Hs | reflexivity].
+Qed.
+
+Lemma agree_sim me sc t : sim me sc -> agree sim me sc t.
+Proof. intros H. unfold agree. exact (lookup_sim me sc t H). Qed.
+
+Lemma instance_refines root : forall n, IHyp root CP1 sim n.
+Proof.
+  induction n as [|n IHn]; intros c lex parent Sp prefix i r [Hc Hpar] Hsim B Fs.
   - simpl in B. discriminate B.
   - destruct n as [|f]; [simpl in B; discriminate B|].
     rewrite (build_plain root f c lex parent Hc) in B.
@@ -467,18 +526,24 @@ Proof.
     assert (Forall fplain (me_of (CDef nm k cs [] ss es) lex parent)) as Hme.
     { constructor; [|assumption]. unfold fplain. cbn [f_entries].
       apply od_update_Forall; [constructor | apply entries_plain; assumption]. }
-    destruct (build_syms_plain root (S f) _ _ Hme _ _ _ _ Hss BS) as [l' [-> F]].
+    destruct (build_syms_plain root Q1 (S f) _ _ (fun t tc tlex tparent b L => lookup_plain _ _ _ _ _ _ Hme L)
+                _ _ _ _ Hss BS) as [l' [-> F]].
     cbn [rev app c_syms c_kind c_eqs] in *.
     cbn [flatten_symbols] in Fs.
     destruct (fs_go flatten_symbols prefix l' [] []) as [[flat feqs]|err] eqn:G; cbn [bind] in Fs; [|discriminate Fs].
-    assert (sim (me_of (CDef nm k cs [] ss es) lex parent) (class_scope (S f) (CDef nm k cs [] ss es) lex Sp)) as Hs.
+    assert (sim (me_of (CDef nm k cs [] ss es) lex parent) (class_scope f (CDef nm k cs [] ss es) lex Sp)) as Hs.
     { unfold me_of, class_scope. rewrite all_classes_plain by reflexivity.
       constructor; [split; reflexivity | assumption]. }
-    destruct (fs_inst root (S f) _ _ prefix IHn Hme Hs ss l' F Hss [] [] (flat, feqs) (Forall_nil _) G) as [IS Cl].
+    pose proof (map_el_ok root Q1 sim (S f) _ (class_scope f (CDef nm k cs [] ss es) lex Sp) ss l' F
+                  (fun t => agree_sim _ _ t Hs)) as F2.
+    assert (Forall plain_sym (map el_sym (map (fun s => (s, class_scope f (CDef nm k cs [] ss es) lex Sp, @nil mentry)) ss))) as Hss2.
+    { rewrite map_map. cbn [el_sym fst]. rewrite map_id. exact Hss. }
+    destruct (fs_inst root Q1 CP1 sim HQ1 (HK1 root) (S f) _ prefix IHn _ l' F2 Hss2 [] [] (flat, feqs) (Forall_nil _) G) as [IS Cl].
     cbn [fst snd map] in IS.
     rewrite (fs_finish_clean _ prefix es flat feqs Cl) in Fs. inversion Fs; subst r; clear Fs.
     cbn [fst snd]. split; [|assumption].
-    rewrite inst_go_plain by reflexivity. cbn [c_syms c_eqs]. rewrite IS.
+    rewrite inst_go_unfold. rewrite (elems_plain f (CDef nm k cs [] ss es) lex Sp prefix [] eq_refl Hnd).
+    cbn [c_syms c_eqs]. rewrite IS.
     rewrite !map_map. cbn [v_name var_of].
     reflexivity.
 Qed.
@@ -526,7 +591,7 @@ Proof.
   destruct (build root false FUEL c lex parent [] []) as [i|err] eqn:B; cbn [bind] in H; [|discriminate H].
   destruct (flatten_symbols i []) as [[flat eqs]|err] eqn:Fs; cbn [bind] in H; [|discriminate H].
   inversion H; subst r; clear H.
-  destruct (instance_refines root FUEL c lex parent parent [] i (flat, eqs) Hc Hpar (sim_refl parent) B Fs)
+  destruct (instance_refines root FUEL c lex parent parent [] i (flat, eqs) (conj Hc Hpar) (sim_refl parent) B Fs)
     as [I Cl].
   cbn [fst snd] in *.
   change INST_FUEL with FUEL. rewrite I.
